@@ -896,6 +896,36 @@ def i1b(prog):
     if bad:
         findings.append({"key": key, "where": "libzwerg/" + f["l"],
                          "msg": bad + ": after crossing an imported_unit boundary the parent must carry the chain of the importing DIE (else child parent != the DIE, parent* never reaches root)", "detail": None})
+    # `root` on the same forest: the unit DIE at the end of the import chain for a cooked DIE (the same DIE the parent chain ends in),
+    # the DIE's own unit DIE for a raw one
+    rf = [g for g in prog.funcs.values() if g["n"] == "op_root_die_operate" and g.get("body") is not None]
+    if len(rf) != 1:
+        raise Broken("anchor op_root_die_operate vanished")
+    ev.hooks["dwpp_cudie"] = lambda ev_, o, a: die_of(a[0].node.root_node())
+    N.root_node = lambda self: self if self.parent is None else self.parent.root_node()
+    rcases = [("a DIE of the unit itself", val(v0, None), R), ("the unit DIE", val(R, None), R),
+              ("a child of a partial unit imported at top level", val(X, I1), R), ("a grandchild inside an imported partial unit", val(Z, I1), R),
+              ("a child of a partial unit imported from an imported partial unit", val(Y, I2), R),
+              ("a child of a partial unit imported below a structure of an imported partial unit", val(W, I3), R),
+              ("a raw DIE of a partial unit", val(Z, None, "raw"), P1), ("a cooked DIE of a partial unit with unknown import history", val(X, None), P1)]
+    key2 = "I1b:root"
+    bad2 = None
+    for what, v, want in rcases:
+        ptype = (rf[0]["params"][0].get("t") or "")
+        try:
+            r = ev.call(rf[0], None, [v])
+        except OutOfBounds as x:
+            raise Broken("op_root_die_operate cannot be evaluated: %s" % x)
+        except Thrown as x:
+            bad2 = bad2 or "`root` of %s raises an error (%s)" % (what, x)
+            continue
+        got = getattr(getattr(r, "m_die", None), "node", None)
+        if (got is not want or chain(getattr(r, "m_import", None)) != []) and bad2 is None:
+            bad2 = "`root` of %s (import chain %s) is %s; expected %s" % (what, chain(v.m_import), got, want)
+    inst.append((key2, {"cases": len(rcases)}))
+    if bad2:
+        findings.append({"key": key2, "where": "libzwerg/" + rf[0]["l"],
+                         "msg": bad2 + ": `root` must equal the end of the `parent` chain, which unwinds every import point", "detail": None})
     return inst, findings
 
 
@@ -2224,4 +2254,99 @@ def x5(prog):
     inst.append((key, {"next_calls": n}))
     if bad:
         findings.append({"key": key, "where": "libzwerg/" + f["l"], "msg": bad, "detail": None})
+    return inst, findings
+
+
+def x6(prog):
+    """libdw finds the data that belongs to a location operation (the block of DW_OP_implicit_value, the DIE or attribute an operation
+    refers to) by the ADDRESS of the Dwarf_Op inside the expression it decoded itself.  Every call of dwarf_getlocation_implicit_value,
+    dwarf_getlocation_die and dwarf_getlocation_attr must therefore be handed a Dwarf_Op pointer that was received as a pointer
+    (parameter or member), never the address of a Dwarf_Op object that lives in the calling function (a by-value parameter or a local
+    copy)."""
+    inst, findings = [], []
+    KEYED = ("dwarf_getlocation_implicit_value", "dwarf_getlocation_die", "dwarf_getlocation_attr")
+    n = 0
+    for f in sorted(prog.funcs.values(), key=lambda f: f["fid"]):
+        if f.get("body") is None or not prog.rel(f.get("file", "")).startswith("libzwerg/"):
+            continue
+        calls_ = [c for c in walk(f["body"]) if c.get("k") == "call" and c.get("fn") in KEYED and len(c.get("a", [])) >= 2]
+        if not calls_:
+            continue
+        byval = {p["id"]: p["n"] for p in f.get("params", []) if (p.get("t") or "").replace("const ", "").strip() in ("Dwarf_Op", "Dwarf_Op &&")}
+        for x in walk(f["body"]):
+            if x.get("k") == "decl":
+                for v in x["vars"]:
+                    if (v.get("t") or "").replace("const ", "").strip() == "Dwarf_Op":
+                        byval[v["id"]] = v["n"]
+        for c in calls_:
+            n += 1
+            key = "X6:%s@%s" % (f["q"].split("<")[0], c["fn"])
+            a = c["a"][1]
+            u = a
+            while isinstance(u, dict) and u.get("k") in ("cast", "paren") and isinstance(u.get("e"), dict):
+                u = u["e"]
+            bad = None
+            if isinstance(u, dict) and u.get("k") == "un" and u.get("op") == "&":
+                t = u.get("e")
+                while isinstance(t, dict) and t.get("k") in ("cast", "paren") and isinstance(t.get("e"), dict):
+                    t = t["e"]
+                if isinstance(t, dict) and t.get("k") == "ref" and t.get("id") in byval:
+                    bad = "passes the address of its own copy `%s` of the operation" % byval[t["id"]]
+            inst.append((key, {"at": c.get("l")}))
+            if bad and not any(fd["key"] == key for fd in findings):
+                findings.append({"key": key, "where": "libzwerg/" + str(c.get("l") or f["l"]),
+                                 "msg": "%s %s to %s: libdw looks the operation up by its address inside the expression it decoded, so the lookup fails "
+                                        "(`no block data`) or finds nothing for a copy" % (f["q"].split("<")[0], bad, c["fn"]), "detail": None})
+    if n < 3:
+        raise Broken("fewer address-keyed libdw location lookups than confirmed by hand (3)")
+    return inst, findings
+
+
+def f8(prog):
+    """a DW_AT_const_value (etc.) stored as a block of 1, 2, 4 or 8 bytes is decoded as the fixed-size data form of exactly that many
+    bytes, read from the block's data; any other length is passed on as a block: handle_encoding_block interpreted from source with
+    dwarf_formblock scripted and the data decoder summarised (it records the form and pointer it is given)."""
+    from cxxobj import CxxEvaluator, Obj, Struct, Sym, OutOfBounds
+    from absint import Thrown
+    inst, findings = [], []
+    f = prog.func_opt("(anonymous namespace)::handle_encoding_block")
+    if f is None or f.get("body") is None:
+        raise Broken("anchor handle_encoding_block vanished")
+    forms = {c["n"]: c["v"] for e in prog.enums.values() if e["file"] == "/usr/include/dwarf.h" for c in e["consts"] if c["n"].startswith("DW_FORM_data")}
+    want_form = {1: forms.get("DW_FORM_data1"), 2: forms.get("DW_FORM_data2"), 4: forms.get("DW_FORM_data4"), 8: forms.get("DW_FORM_data8")}
+    if None in want_form.values():
+        raise Broken("DW_FORM_dataN constants vanished from dwarf.h")
+    seen = []
+    cur = {}
+
+    def formblock(ev, o, a):
+        a[1].length, a[1].data = cur["len"], cur["data"]
+        return 0
+    hooks = {"dwarf_formblock": formblock,
+             "(anonymous namespace)::handle_encoding_data": lambda ev, o, a: (seen.append((a[0].form[2] if isinstance(a[0].form, tuple) else a[0].form, a[0].valp, a[1])), Sym.of("decoded"))[1],
+             "throw_libdw": lambda ev, o, a: (_ for _ in ()).throw(Thrown("libdw error"))}
+    ev = CxxEvaluator(hooks, {}, prog=prog)
+    key = "F8:handle_encoding_block"
+    bad = None
+    for ln in (0, 1, 2, 3, 4, 5, 8, 9, 16):
+        for enc in (5, 7):
+            cur["len"], cur["data"] = ln, Sym.of("block-data-%d" % ln)
+            attr = Struct("Dwarf_Attribute", {})
+            attr.code, attr.form, attr.valp, attr.cu = 0x1c, 0x0a, Sym.of("attr-valp"), Sym.of("cu")
+            del seen[:]
+            try:
+                r = ev.call(f, None, [attr, enc])
+            except (OutOfBounds, Thrown) as x:
+                raise Broken("handle_encoding_block cannot be evaluated: %s" % x)
+            if ln in want_form:
+                ok = len(seen) == 1 and seen[0][0] == want_form[ln] and seen[0][1] is cur["data"] and seen[0][2] == enc and r is not None
+                if not ok and bad is None:
+                    got = ("decoded as form %#x from %s" % (seen[0][0], getattr(seen[0][1], "q", seen[0][1]))) if seen else "not decoded"
+                    bad = "a block of %d byte(s) is %s; expected the %d-byte data form (%#x) read from the block's data" % (ln, got, ln, want_form[ln])
+            else:
+                if (seen or r is not None) and bad is None:
+                    bad = "a block of %d bytes is decoded as an integer instead of being passed on as a block" % ln
+    inst.append((key, {"block_lengths": 9}))
+    if bad:
+        findings.append({"key": key, "where": "libzwerg/" + f["l"], "msg": bad + ": the value comes out truncated or from the wrong bytes, without any diagnostic", "detail": None})
     return inst, findings
